@@ -42,6 +42,10 @@ add("C16", "genrun", "constructive world generator (choice tape, proptest-shrunk
     "18k generated worlds per quick run (1..3 packages, `use` chains, every type constructor in every position, resources, async, futures/streams, error-context, world-level items, adversarial names and docs), each parsed by wit-parser and validated as a component type, run through a (backend, option variant) drawn from crates/test's variant lists; plus the whole tests/codegen corpus x all backends x all variants. Oracle: no panic. Declared exclusions are transcribed from crates/test should_fail_verify and applied by construction; six genuine panics found so far are listed known findings (excluded by construction, each kept alive by a minimal witness), two were fixed.",
     "File-name exclusions are mapped to the WIT feature the file exercises; error-context is treated as part of the async proposal for C++/D; generators run in-process through the same clap Opts as the CLI; only panics count, returned errors do not.")
 
+add("C15", "genrun", "generated worlds + corpus x all backends/variants; metamorphic oracle: repeated generation (3 threads with distinct hash seeds, and separate CLI processes) must give byte-identical file sets; --check from another process must succeed",
+    "In-process tier: ~6k generated worlds + the corpus x every backend/variant, each generated three times on three threads (std RandomState differs per thread and per map) and compared byte for byte. Process tier: the CLI built from /repo's working tree is run in separate processes on a sample of corpus files and generated worlds (x all 8 backends), outputs compared and `--check` run from a third process. Found and fixed three nondeterminism defects (MoonBit FFI helper order, two C# orderings); regression worlds are re-run 4x3 times every run.",
+    "Hash-order nondeterminism only shows with some probability per run, hence repeated runs; ASLR-dependent behaviour is only covered by the (smaller) process tier; `--check` in place is not asserted for C++/D (they read the out-dir).")
+
 PENDING_REASON = "check not built yet in this session (planned in DESIGN.md §4); not claimed until it exists and passes its sensitivity runs"
 
 def main():
@@ -93,7 +97,7 @@ def main():
 NA = {}
 HOOK_COMMITS = ["b827c12", "a6f2383"]
 ENGINES = [
-    {"name": "genrun", "path": "harness/genrun", "serves_properties": ["C16"], "kind_free_text": "tape-driven constructive WIT world generator (harness/witgen) + in-process drivers for all eight generators with panic capture and output collection"},
+    {"name": "genrun", "path": "harness/genrun", "serves_properties": ["C15", "C16"], "kind_free_text": "tape-driven constructive WIT world generator (harness/witgen) + in-process drivers for all eight generators with panic capture and output collection"},
     {"name": "abisim", "path": "harness/abisim", "serves_properties": ["C01", "C02", "C03", "C04"], "kind_free_text": "recording wit_bindgen_core::abi::Bindgen + instruction interpreter + independent reference canonical ABI (harness/refabi), driven by proptest"},
     {"name": "rtpbt", "path": "harness/rtpbt", "serves_properties": ["C24"], "kind_free_text": "proptest histories against wit_bindgen::rt allocation entry points with a tracking global allocator"},
     {"name": "corepbt", "path": "harness/corepbt", "serves_properties": ["C17", "C25", "C26", "C27", "C28", "C34"], "kind_free_text": "proptest harnesses over public items of wit-bindgen-core / wit-bindgen rt / wit-bindgen-test"},
